@@ -10,7 +10,7 @@ from ..sdenv import hdr, sd
 from ..vloop import FakeTransport, new_loop
 from .common import Mode1, conformance, judge
 
-DSTS = ["mc", "a1", "a2", "e1", "e2", "e3"]
+DSTS = ["mc", "a1", "a2", "a4", "a5", "e1", "e2", "e3"]
 ONE = [{"ty": "offer", "svc": "s1", "ttl": 3, "opts": []}]
 
 
@@ -39,7 +39,8 @@ def run_sd(plan):
 
 def gen_plan(rng, sends, near_wrap):
     plan = []
-    dsts = ["mc", "a1", "a2"]
+    # multicast and two IPv4 peers, or two peers that differ only in their IPv6 scope id
+    dsts = ["mc", "a4", "a5"] if rng.random() < 0.25 else ["mc", "a1", "a2"]
     if near_wrap:
         for d in dsts:
             plan.append(("burn", d, rng.choice([65535 - rng.randint(1, 40), 2 * 65535 - rng.randint(1, 40), 65533, 65534, 65535, 131069])))
@@ -61,6 +62,18 @@ def sd_traces(seed, count, sends):
         rng = random.Random("c08/%s/%s" % (seed, i))
         plan = gen_plan(rng, sends, i % 4 != 0)
         out.append({"cfg": cfg, "ev": monpass.add_adv(run_sd(plan)), "sched": plan, "mode": "sd"})
+    return out
+
+
+def crowd_traces():
+    """more destinations than any bounded table of counters holds, between two messages to the same destination"""
+    out = []
+    for n in (60, 1100):
+        others = sdenv.hosts(n)
+        plan = [("send", "a1", ONE), ("send", "a1", ONE), ("send", "mc", ONE), ("send", "a4", ONE)]
+        plan += [("send", h, ONE) for h in others]
+        plan += [("send", "a1", ONE), ("send", "mc", ONE), ("send", "a5", ONE), ("send", "a4", ONE), ("send", others[0], ONE)]
+        out.append({"cfg": {"dsts": DSTS + others, "maxId": 65535}, "ev": monpass.add_adv(run_sd(plan)), "sched": plan, "mode": "sd"})
     return out
 
 
@@ -156,7 +169,7 @@ def check(ctx):
     m1.caught("SwZero", "C08_quick.cfg")
     m1.caught("SwEmpty", "C08_quick.cfg")
     m1.holds("full 2 x 65535 cycle of one destination", "C08_quick.cfg", {"Q_": "W_"}, timeout=1200)
-    a = sd_traces(ctx.seed, *ctx.pick((40, 150), (300, 400)))
+    a = sd_traces(ctx.seed, *ctx.pick((40, 150), (300, 400))) + crowd_traces()
     bad1, ms1 = judge(ctx, "Mon_C08", a, "send_sd", lambda tr: {"mode": "sd", "sched": tr["sched"], "trace": tr["ev"][-60:]})
     n = notify_traces(ctx.seed, ctx.pick(40, 400))
     bad2, ms2 = judge(ctx, "Mon_C08", n, "notifications", lambda tr: {"mode": "notify", "sched": tr["sched"], "trace": tr["ev"][-60:]})
@@ -183,7 +196,9 @@ def check(ctx):
 
 def replay(ctx, rep):
     p = rep["payload"]
-    cfg = {"dsts": DSTS, "maxId": 65535}
+    names = sorted({s[1] for s in p["sched"] if isinstance(s, (list, tuple)) and str(s[1]).startswith("h")}) if p["mode"] == "sd" else []
+    sdenv.hosts(1 + max([int(x[1:]) for x in names] + [0]))
+    cfg = {"dsts": DSTS + names, "maxId": 65535}
     if p["mode"] == "sd":
         tr = {"cfg": cfg, "ev": monpass.add_adv(run_sd([tuple(s) for s in p["sched"]])), "sched": p["sched"]}
     elif p["mode"] == "notify":
